@@ -364,6 +364,10 @@ type seqReport struct {
 // runSeqHistory runs one history on one engine; returns events, transcript lines, mismatch notes.
 func runSeqHistory(eng *kb.Engine, engName string, b *seqBehaviour, rnd *rand.Rand, frac float64, opt seqOptions) ([]gate.Event, []string, []string, int) {
 	var notes []string
+	if gate.IsWedged(eng.KV) {
+		// (found not to answer in an earlier history of this process: every history says so, none hangs)
+		return []gate.Event{{"e": "EngineWedged", "engine": engName}}, []string{"the engine no longer answers"}, []string{"engine wedged"}, 0
+	}
 	keyNames := defaultKeyNames[:b.NKeys]
 	if opt.keyNames != nil {
 		keyNames = opt.keyNames[:b.NKeys]
@@ -380,7 +384,7 @@ func runSeqHistory(eng *kb.Engine, engName string, b *seqBehaviour, rnd *rand.Ra
 	}
 	// (a backend's background goroutines never end, so no backend of an earlier history is ever collected: keep what each one
 	//  allocates small -- an event cache of 256 entries instead of the default 200000; a history has a few dozen events)
-	env := kb.NewEnv(kb.Options{Engine: eng, KeyNames: keyNames, Gated: false, Base: b.Base, Record: true, Etcd: true, NoTTL: opt.noTTL, Partitions: opt.partitions, Prefix: fixedPrefix, CacheSize: 256})
+	env := kb.NewEnv(kb.Options{Engine: eng, KeyNames: keyNames, Gated: false, Base: b.Base, Record: true, Etcd: true, NoTTL: opt.noTTL, Partitions: opt.partitions, Prefix: fixedPrefix, CacheSize: 256, TrackAbandoned: true})
 	defer env.Retire()
 	env.Sched.Register("c1")
 	store0, _ := env.Dump()
@@ -464,11 +468,28 @@ func runSeqHistory(eng *kb.Engine, engName string, b *seqBehaviour, rnd *rand.Ra
 				}
 				return ""
 			}
+			if engName == "tikv-regions" {
+				// real region borders in the middle of the keys' versions BEFORE the compaction runs (every second revision: a key with
+				// four versions has two consecutive borders inside its versions), so that its workers get partitions that start and
+				// end inside one key
+				for k := 1; k <= b.NKeys; k++ {
+					for r := b.Base + 1; r <= cur; r += 2 {
+						eng.SplitAt(env.InternalKey(k, r))
+					}
+				}
+			}
 			env.Rec.Log(gate.Event{"e": "CInvoke", "p": "c1", "req": gate.Clip(o.Req), "crash": o.Crash, "bad": o.Bad, "fk": o.Fk})
 			resp, err := env.B.Compact(context.Background(), o.Req)
 			hdr := uint64(0)
 			if err == nil {
 				hdr = resp.Header.GetRevision()
+			}
+			if env.Store.CheckAbandoned(); env.Store.Wedged() {
+				// the engine stopped answering during this request (a batch begun and never committed: memkv keeps its store lock):
+				// nothing after this point can be asked of it; the transcript says so and differs from every engine that still answers
+				transcript = append(transcript, fmt.Sprintf("compact %d -> the engine no longer answers", o.Req))
+				env.Rec.Log(gate.Event{"e": "EngineWedged", "engine": engName})
+				return env.Rec.Events(), transcript, append(notes, "engine wedged after compact"), rd.n
 			}
 			env.Rec.Log(gate.Event{"e": "CReturn", "p": "c1", "req": gate.Clip(o.Req), "hdr": gate.Clip(hdr), "err": errStr(err), "minunc": gate.Clip(minunc)})
 			env.Store.DelFault = nil
